@@ -597,10 +597,11 @@ Inductive op :=
 | OpCreate (key : list byte) (tfok : bool) (year : Z) (tag : list byte)     (* DataService.Create *)
 | OpWrite (key : list byte) (tfok : bool) (years : list Z) (tag : list byte)  (* Writer.WriteCSM, one bucket *)
 | OpDestroy (key : list byte)                                                   (* DataService.Destroy *)
-| OpQuery (key : list byte).                                                    (* DataService.Query *)
+| OpQuery (key : list byte)                                                     (* DataService.Query *)
+| OpRestart.                                                                    (* catalog.NewDirectory(root) on the same disk *)
 
 Definition op_key (o : op) : list byte :=
-  match o with OpCreate k _ _ _ | OpWrite k _ _ _ | OpDestroy k | OpQuery k => k end.
+  match o with OpCreate k _ _ _ | OpWrite k _ _ _ | OpDestroy k | OpQuery k => k | OpRestart => [] end.
 
 Definition fe_create (w : world) (c : catalog) (root : list byte) (key : list byte) (tfok : bool) (year : Z)
            (tag : list byte) : world * catalog * out unit :=
@@ -679,6 +680,8 @@ Definition step (root : list byte) (st : world * catalog) (o : op) : world * cat
   | OpWrite k tfok ys tag => let '(w', c', r) := write_csm1 w c k tfok ys tag in (w', c', out_code r)
   | OpDestroy k => let '(w', c', r) := fe_destroy w c k in (w', c', out_code r)
   | OpQuery _ => (w, c, 0)
+  | OpRestart => let '(n, dm, e) := new_directory w root in
+                 (w, mkCat n dm, match e with LOther => 1 | _ => 0 end)
   end.
 
 (* ------------------------------------------------------------------ the guard of C16 *)
